@@ -613,6 +613,66 @@ def process_fn(toks, it, fs: FnSpec, qual, ed: Edits, log, unit_in_trait_impl):
                 as_slice = "" if fs.r12map.get(recv.replace(" ", "")) == "slice" else ".as_slice()"
                 ed.replace(toks[sg_idx[jj]].pos, toks[sg_idx[ii + 6]].end, f"{helper12}({recv}{as_slice}, ")
                 cnt += 1
+        # R12c: X.iter().<adapters>.collect() -> vx_iter_<adapters>_collect(X.as_slice(), closures…)
+        ADAPT = {"filter": "filter", "map": "map", "filter_map": "filtermap", "cloned": "cloned", "copied": "copied"}
+        for ii in range(len(sg_idx) - 4):
+            if [toks[sg_idx[ii + d]].text for d in range(4)] != [".", "iter", "(", ")"]:
+                continue
+            jj = ii - 1
+            if jj < 0 or toks[sg_idx[jj]].kind != "ident":
+                continue
+            while jj - 2 >= 0 and toks[sg_idx[jj - 1]].text == "." and toks[sg_idx[jj - 2]].kind == "ident":
+                jj -= 2
+            recv = src[toks[sg_idx[jj]].pos:toks[sg_idx[ii - 1]].end]
+            chain = []      # (name, dot tok, open tok, close tok)
+            k2 = next_sig(toks, sg_idx[ii + 3] + 1, hi)
+            term = None
+            while k2 is not None and toks[k2].text == ".":
+                nm = next_sig(toks, k2 + 1, hi)
+                if nm is None or toks[nm].kind != "ident":
+                    break
+                op = next_sig(toks, nm + 1, hi)
+                if toks[nm].text == "collect":
+                    # optional turbofish
+                    if op is not None and toks[op].text == "::":
+                        lt = next_sig(toks, op + 1, hi)
+                        depth = 0
+                        q = lt
+                        while q is not None:
+                            if toks[q].text == "<": depth += 1
+                            elif toks[q].text == ">": depth -= 1
+                            elif toks[q].text == ">>": depth -= 2
+                            if depth <= 0: break
+                            q = next_sig(toks, q + 1, hi)
+                        op = next_sig(toks, q + 1, hi)
+                    if op is not None and toks[op].text == "(":
+                        term = (k2, match_close(toks, op))
+                    break
+                if toks[nm].text not in ADAPT or op is None or toks[op].text != "(":
+                    break
+                cp = match_close(toks, op)
+                chain.append((toks[nm].text, k2, op, cp))
+                k2 = next_sig(toks, cp + 1, hi)
+            if term is None or not chain:
+                continue
+            if [c[0] for c in chain] == ["filter", "map"]:
+                margs = "".join(toks[q].text for q in range(chain[1][2] + 1, chain[1][3]) if toks[q].kind not in ("ws", "comment"))
+                if re.fullmatch(r"\|\((\w+),(\w+)\)\|\(\*\1,\*\2\)", margs):
+                    continue    # copying sub-map of a hash map: vx_hashmap_filter_copy below
+            helper = "vx_iter_" + "_".join(ADAPT[c[0]] for c in chain) + "_collect"
+            as_slice = "" if fs.r12map.get(recv.replace(" ", "")) == "slice" else ".as_slice()"
+            ed.replace(toks[sg_idx[jj]].pos, toks[sg_idx[ii + 3]].end, f"{helper}({recv}{as_slice}")
+            for (nm_, dot, op, cp) in chain:
+                has_args = next_sig(toks, op + 1, hi) != cp
+                if has_args:
+                    ed.replace(toks[dot].pos, toks[op].end, ", ")
+                    ed.replace(toks[cp].pos, toks[cp].end, "")
+                else:
+                    ed.replace(toks[dot].pos, toks[cp].end, "")
+            ed.replace(toks[term[0]].pos, toks[term[1]].end, ")")
+            log["rewrites"].append({"rule": "R12c", "fn": qual, "before": f"{recv}.iter()." + ".".join(c[0] + "(..)" for c in chain) + ".collect()",
+                                    "after": f"{helper}({recv}{as_slice}, ..)"})
+            cnt += 1
         # X.into_iter().filter(c).collect() -> vx_filter_collect(X, c)
         for ii in range(len(sg_idx) - 6):
             seq = [toks[sg_idx[ii + d]].text for d in range(7)]
